@@ -49,4 +49,49 @@ def c07close : Drv where
     | ["totals"] => (l, s!"{balanceTotal l} {spendableTotal l} {feesTotal l} {lostTotal l} {entitlement l}")
     | _ => (l, "bad-op")
 
+/-! ### c07fee: target feerates / fee-bump trajectories (Generated/Package.lean `computePackageFeerate`,
+    `computePackageOutput`; Model/OnchainClaims.lean `extTargets`, `ownFeerates`) -/
+open Ldk.Pkg
+
+def showNats (xs : List Nat) : String := if xs.isEmpty then "-" else " ".intercalate (xs.map toString)
+
+/-- `<strategy 0|1|2>:<est>` -/
+def extStepOf (s : String) : Option (FeerateStrategy × Nat) :=
+  match splitOnChar s ':' with
+  | [a, b] => some (strategyOf a, nat! b)
+  | _ => none
+
+/-- `<amount>:<weight>:<dust>:<strategy>:<est>` -/
+def reissueOf (s : String) : Option Reissue :=
+  match splitOnChar s ':' with
+  | [a, w, d, st, e] => some { amount := nat! a, weight := nat! w, dust := nat! d, strategy := strategyOf st, est := nat! e }
+  | _ => none
+
+def showPf (prev s est : String) : String :=
+  if packageFeerateOverflows (nat! prev) (strategyOf s) (nat! est) then "ovf"
+  else toString (computePackageFeerate (nat! prev) (strategyOf s) (nat! est))
+
+/-- ops:  pf <feerate_previous> <strategy 0|1|2> <est> [<tag>]     → target feerate (`ovf`: the u32 product overflows)
+          po <package_amount> <weight> <dust> <feerate_previous> <strategy> <est>   → `<output> <feerate>` | `none`
+          ext <feerate_previous> <strategy:est>… [s<seed>]            → the successive target feerates
+          own <feerate_previous> <amount:weight:dust:strategy:est>…  → the feerates of the issued transactions -/
+def c07fee : Drv where
+  σ := Unit
+  init := ()
+  step := fun _ ws => ((),
+    match ws with
+    | ["pf", prev, s, est] => showPf prev s est
+    | ["pf", prev, s, est, _tag] => showPf prev s est
+    | ["po", amt, w, dust, prev, s, est] =>
+      showFee (computePackageOutput (nat! amt) (nat! w) (nat! dust) (nat! prev) (strategyOf s) (nat! est))
+    | "ext" :: prev :: steps =>
+      match (steps.filter fun t => !t.startsWith "s").mapM extStepOf with   -- a trailing `s<seed>` scenario tag is not a step
+      | some ss => showNats (extTargets (nat! prev) ss)
+      | none => "bad-op"
+    | "own" :: prev :: steps =>
+      match steps.mapM reissueOf with
+      | some rs => showNats (ownFeerates (nat! prev) rs)
+      | none => "bad-op"
+    | _ => "bad-op")
+
 end Ldk.Driver
